@@ -9,7 +9,9 @@ def replay(pl):
         name, long_ = name[len('native.'):], True
     try:
         d = indic.prefix_check(name)
-        if not d and (long_ or pl['obligation'].endswith('.native-bounded') or pl['obligation'].endswith('.for-every-input-length')):
+        if not d and pl['obligation'].endswith('.for-every-input-length'):
+            d = indic.lost_proof_check(name)
+        elif not d and (long_ or pl['obligation'].endswith('.native-bounded')):
             d = indic.long_prefix_check(name)
     except Exception as ex:
         return {'confirmed': False, 'error': f'{type(ex).__name__}: {ex}'}
